@@ -42,9 +42,9 @@ var (
 func sanitizeB(sc *Scenario) *Scenario {
 	c := clone(sc)
 	for i := range c.Chans {
-		// element kinds of the compiled program: 0 struct{}, 4 int32, 8 int, 16 string, 24 [3]int64
+		// element kinds of the compiled program: 0 struct{}, 4 int32, 8 int, 16 string, 24 [3]int64, 160 [20]int64
 		switch c.Chans[i].Elem {
-		case 0, 8, 24:
+		case 0, 8, 24, 160:
 		case 1:
 			c.Chans[i].Elem = 4
 		default:
@@ -107,6 +107,8 @@ func elemType(es int) string {
 		return "string"
 	case 24:
 		return "[3]int64"
+	case 160:
+		return "[20]int64"
 	}
 	return "int"
 }
@@ -123,6 +125,8 @@ func mk(es, v int) string {
 		return fmt.Sprintf("itos(%d)", v)
 	case 24:
 		return fmt.Sprintf("[3]int64{%d, %d ^ 0x5a5a, ^%d}", v, v, v)
+	case 160:
+		return fmt.Sprintf("mk20(%d)", v)
 	}
 	return strconv.Itoa(v)
 }
@@ -137,6 +141,8 @@ func dec(es int, x string) string {
 		return "stoi(" + x + ")"
 	case 24:
 		return "dec3(" + x + ")"
+	case 160:
+		return "dec20(" + x + ")"
 	}
 	return x
 }
@@ -166,6 +172,30 @@ func stoi(s string) int {
 	return n
 }
 
+// 160-byte elements: larger than anything the compiler or the runtime may treat as small
+func mk20(v int) (a [20]int64) {
+	for i := range a {
+		a[i] = int64(v) ^ int64(i*0x1111)
+	}
+	return
+}
+
+func dec20(a [20]int64) int {
+	zero := true
+	for i := range a {
+		zero = zero && a[i] == 0
+	}
+	if zero {
+		return 0
+	}
+	for i := range a {
+		if a[i] != a[0]^int64(i*0x1111) {
+			return -1
+		}
+	}
+	return int(a[0])
+}
+
 func dec3(a [3]int64) int {
 	if a[0] == 0 && a[1] == 0 && a[2] == 0 {
 		return 0
@@ -191,13 +221,13 @@ func genB(rng *sim.Rng) *Scenario {
 		nt = rng.Range(3, 4)
 	}
 	for i := 0; i < nch; i++ {
-		sc.Chans = append(sc.Chans, ChanSpec{Cap: rng.Range(1, 3), Elem: []int{8, 8, 4, 16, 24, 0}[rng.Intn(6)]})
+		sc.Chans = append(sc.Chans, ChanSpec{Cap: rng.Range(1, 3), Elem: []int{8, 8, 4, 16, 24, 0, 160}[rng.Intn(7)]})
 		sc.Perm = append(sc.Perm, i)
 	}
 	// one unbuffered channel used by plain operations only
 	plain := -1
 	if rng.Bool() {
-		sc.Chans = append(sc.Chans, ChanSpec{Cap: 0, Elem: []int{8, 24, 16}[rng.Intn(3)]})
+		sc.Chans = append(sc.Chans, ChanSpec{Cap: 0, Elem: []int{8, 24, 16, 160}[rng.Intn(4)]})
 		sc.Perm = append(sc.Perm, nch)
 		plain = nch
 		nch++
